@@ -1,7 +1,7 @@
 #!/bin/bash
-# usage: confirm_seed.sh <id>   (seed worktree /tmp/seed-<id>, deliverables /tmp/seedout-<id>)
+# usage: confirm_seed.sh <id> [worktree] [outdir]   (defaults /tmp/seed-<id>, /tmp/seedout-<id>)
 # (git stash is shared between worktrees: the change is taken off and put back with git apply)
-id=$1; wt=/tmp/seed-$id; out=/tmp/seedout-$id
+id=$1; wt=${2:-/tmp/seed-$id}; out=${3:-/tmp/seedout-$id}
 export GOFLAGS=-mod=mod GOPROXY=off
 cd $out
 git -C $wt diff > /tmp/seed_cur_$id.diff
